@@ -8,7 +8,7 @@ T4 = []
 PROOF_MODULES = ["GrpcProofs.Properties.C57"]
 THEOREMS = ["GrpcProofs.C57." + t for t in (
     "callback_at_most_once", "never_if_removed_first", "exactly_once_if_expired_or_cleared",
-    "remove_returns_to_exactly_one_caller", "remove_step", "clear_visits_iff", "add_step",
+    "remove_returns_to_exactly_one_caller", "remove_step", "stale_timer_spares_readded_key", "clear_visits_iff", "add_step",
     "fire_true_for_exactly_one", "fire_progress",
     "cleanup_exactly_once_at_zero", "decrement_to_zero_schedules_cleanup", "no_resurrection",
     "try_increment_fails_when_dead")]
@@ -34,9 +34,13 @@ LEVEL_NOTE = ("Trusted: Lean kernel; Go memory model (each typed-atomic access i
               "TimeoutCache: the window 'timer fired, goroutine waiting for c.mu' can only be produced by holding c.mu from the "
               "harness (shim VerifLock) while virtual time passes the deadline; inside that window the harness calls the real "
               "removeInternal (ops hremove/hclear; hclear re-enacts Clear's two loops around it). Remove/Clear/Add themselves are "
-              "driven as whole calls, sequentially and from concurrent goroutines.")
-GAP = ("interleaving 'old timer goroutine still waiting for the lock while the key is re-added' is proved in the model but not "
-       "reachable in the harness (Add takes the lock itself); int32 wrap-around of refCount; real (non-virtual) timers")
+              "driven as whole calls, sequentially, from concurrent goroutines, and (op hrace) in every order relative to timer "
+              "goroutines that are already queued on c.mu, including a re-Add of the removed key before the stale goroutine runs.")
+GAP = ("interleavings INSIDE a critical section of TimeoutCache (they are atomic under c.mu); int32 wrap-around of refCount; real "
+       "(non-virtual) timers. The three-party race 'timer fired and queued on c.mu / Remove or Clear / re-Add of the same key' is "
+       "driven through the public API by op hrace: on one processor (GOMAXPROCS(1)) a goroutine woken by Unlock cannot run before "
+       "the harness goroutine yields, so the order of the three critical sections is chosen by the harness; if the runtime "
+       "nevertheless lets a timer goroutine in first, the model follows the implementation's answer (order tra)")
 ASSUMPTIONS = ["Increment is only called by a holder of a live reference (documented contract)",
                "fewer than 2^31-1 references",
                "sync/atomic operations are sequentially consistent; a sync.Mutex critical section is atomic",
@@ -45,7 +49,9 @@ RULE = ("refcounted: schedules over i1..i3 (TryIncrement), a1..a2 (Increment), d
         "Decrement to 0, then the stale CAS; racing CASes; surplus Decrements; Increment after death) + random bursts in two phases "
         "(acquire-heavy, then release-heavy); event: every interleaving of up to 4 firers x 2 steps plus HasFired readers, random "
         "orders; s_timeoutcache: random op sequences over 3 keys with sleeps landing before/on/after deadlines, lock-held windows "
-        "(hremove/hclear) clamped to the next deadline, concurrent Add/Remove/Remove||Clear. A case is non-trivial if (refcounted) "
+        "(hremove/hclear) clamped to the next deadline, concurrent Add/Remove/Remove||Clear, and the three-party races hrace: "
+        "{Remove, Clear(false), Clear(true)} x re-Add of the same or another key x the queued timer goroutines in the orders R-A-T, "
+        "R-T-A, T-R-A, followed by sleeps past the new entry's deadline. A case is non-trivial if (refcounted) "
         "the count reached zero and a TryIncrement step ran, (event) at least two firers, (cache) a callback ran or a lock-held "
         "removal returned an entry; distinct = distinct op sequence")
 
@@ -126,8 +132,11 @@ def tc_case(rng, ln):
             ops.append("sleep %d" % rng.choice(sleeps))
         elif r < 0.74:
             ops.append("hremove %d %d" % (k, rng.choice([T, T // 2, 2 * T, T // 4])))
-        elif r < 0.80:
+        elif r < 0.78:
             ops.append("hclear %d %d" % (rng.randrange(2), rng.choice([T, T // 2, 2 * T])))
+        elif r < 0.80:
+            ops.append("hrace %d %d %d %s %s" % (k, nxt(), rng.choice([T, T // 2, 2 * T, T // 4]),
+                                               rng.choice(["rat", "rat", "rta", "tra"]), rng.choice(["r", "r", "c0", "c1"])))
         elif r < 0.85:
             ops.append("clear %d" % rng.randrange(2))
         elif r < 0.90:
@@ -156,6 +165,19 @@ def tc_directed():
     yield n + ["add 1 1", "add 1 2", "cremove 1 5", "cadd 2 3 5", "cremove 2 3", "cadd 3 4 4", "rc 3 1", "sleep 2000"]
     yield n + ["add 1 1", "sleep 400", "add 2 2", "sleep 400", "add 3 3", "hremove 9 250", "hremove 3 500", "hremove 3 500", "sleep 1000"]
     yield n + ["add 1 1", "hremove 1 400", "hremove 2 400", "hremove 1 400", "sleep 1000"]   # lock-held sleeps that stop short of the deadline
+    # three-party races: timer queued on c.mu / Remove|Clear / re-Add, in every order, then the new entry's fate
+    item = 10
+    for how in ("r", "c0", "c1"):
+        for order in ("rat", "rta", "tra"):
+            for key2 in (1, 2):
+                item += 1
+                yield n + ["add 1 1", "add 3 3", "hrace %d %d 1000 %s %s" % (key2, item, order, how), "len", "sleep 500",
+                           "remove %d" % key2, "sleep 2000", "len"]
+                item += 1
+                yield n + ["add 1 1", "sleep 300", "add 2 2", "hrace 1 %d 2000 %s %s" % (item, order, how), "sleep 999", "sleep 1",
+                           "sleep 2000"]
+    yield n + ["add 1 1", "hrace 1 2 1000 rat r", "hrace 1 3 1000 rat r", "hrace 1 4 1000 rat c1", "sleep 1000", "remove 1"]
+    yield n + ["add 1 1", "hrace 1 2 400 rat r", "sleep 600", "sleep 400"]                      # window stops short of the deadline: plain Remove + Add
 
 
 def gen(rng, tier):
